@@ -5,6 +5,7 @@ pub mod fault;
 pub mod hist;
 pub mod tree;
 pub mod wt;
+pub mod zig;
 
 use crate::runner::Engine;
 
@@ -14,6 +15,7 @@ pub fn engine_for(property: &str) -> Option<Box<dyn Engine>> {
     match property {
         "C03" => Some(Box::new(fault::FaultEngine::new("C03"))),
         "C05" => Some(Box::new(fault::FaultEngine::new("C05"))),
+        "C06" => Some(Box::new(zig::ZigEngine)),
         "C07" => Some(Box::new(affine::AffineEngine)),
         "C08" => Some(Box::new(alias::AliasEngine)),
         "C09" => Some(Box::new(tree::TreeEngine::new("C09"))),
